@@ -10,9 +10,40 @@ from harness import lib_cross as L
 
 THEOREMS = 'Properties/C05.v'
 CLAIM = dict(
-    text='WORK IN PROGRESS',
-    note='',
-    technique='Coq proof + exact replay correspondence + cached/uncached pairs compared bitwise + dense rank-rho oracle')
+    text='Coq theorems (Properties/C05.v), for every dimension, mode sizes, ranks, rank-growth window, sweep count, '
+         'callback and numeric kernel. State-machine part, about the model Model/Cross.v of teneva.cross (shared with '
+         'C06): C05_func_eval_transparent - for an objective that is a function of the multi-index, _func_eval with a '
+         'consistent cache and without cache return the same value array unless the uncached call is refused for the '
+         'budget, and m_cached <= m_uncached is kept; C05_cache_transparent - a cached and an uncached run with the same '
+         'arguments return the same cores, index sets, sweep count, stop reason and info r/e/e_vld, the cached run '
+         'evaluating at most as many indices, provided the uncached run does not stop on the budget and the cached run '
+         'does not stop by the cache-specific conv rule; C05_cache_content / C05_cache_keys - at every exit, for any '
+         'objective, the dictionary is the initial one updated in call order with exactly the index->value pairs of '
+         'the successful objective calls; C05_info_consistent - at every exit info.r, info.e, info.e_vld are the values '
+         'of erank / accuracy / accuracy_on_data on the returned cores (accuracy against the cores saved at the start '
+         'of the last sweep). Numeric part, over any commutative ring, function view: C05_core_interp (Z = QR and '
+         'B Q[ind] = Q give B Z[ind] = Z), C05_skeleton_exact (A = XY with invertible intersections: '
+         'A = A[:,J] A[I,J]^-1 A[I,:]), C05_span_of_rank (TT-rank rho + right-invertible sampled columns give the '
+         'spanning hypothesis), C05_cross_exact_cond (conditional: if at every position of a left-to-right half sweep '
+         'B Z[ind] = Z holds and the sampled columns span the unfolding, the product of the cores G[a,j,c] = '
+         'B[a + r j, c] closed with the values at the last index set equals the target at EVERY multi-index; any '
+         'number of selected rows, so also under rank growth). Non-vacuity Examples over Z for both parts.',
+    note='PARTIAL / not proved: (1) C05_cross_exact_cond is about the interpolation scheme (index rows cand, cores as '
+         'Fortran reshape of B, closing factor Z[ind]); that teneva._iter computes exactly this scheme is NOT a Coq '
+         'theorem (the payload of Model/Cross.v is opaque) - it is checked on every run: identities on every recorded '
+         '_iter/_maxvol call (exact for reshape and index rows, 1e-9 for R = Z[ind], B Q[ind] = Q, B Z[ind] = Z) and the '
+         'Gallina half sweep runI at the float instance against the returned tensor. (2) "almost all tensors" '
+         '(measure zero of the bad set) is not formalised: genericity enters as the explicit hypotheses span_ok / '
+         'invertible intersections; the QR and maxvol contracts are hypotheses (C08). (3) only the left-to-right '
+         'half sweep is proved (the right-to-left one is its mirror image, not stated); the over-ranked regime is '
+         'covered only as far as its hypotheses hold - there an index set inherited from the pre-iteration can be '
+         'degenerate with positive probability (observed: interrupted over-ranked first sweep, error ~0.1), so it is '
+         'validated numerically at 1e-6 for completed sweeps only. (4) that the cores saved at sweep start are "the '
+         'tensor of the previous sweep" is validated with independent snapshots, not proved. (5) equality up to '
+         'rounding is a float fact: dense comparison at 1e-6 in search().',
+    technique='Coq proof (lock-step simulation of two runs of a small-step machine; inductive invariants; ring algebra '
+              'of interpolation) + exact replay correspondence of cached/uncached pairs + bitwise comparison of the '
+              'pairs on the implementation + recorded-oracle identities + dense rank-rho oracle')
 TRUSTED = ['Coq 8.16.1 kernel + vm_compute (case evaluation only)',
            'hand-written model Model/Cross.v tied to cross.py / utils.py by exact replay correspondence',
            'numpy semantics of kron / hstack / reshape(order=F) / fancy indexing as transcribed in batch / inew',
